@@ -106,6 +106,32 @@ pub fn quota_native_case(idx: usize, reg: &[Box<dyn Ops>], g: &mut StdRng) -> Va
     json!({"idx": idx, "kind": "quota", "api": "native", "rust": e.name(), "env": d.nodes, "types": [t], "wts": wts, "nextra": nextra, "blob": bytesj(&bytes), "base": base, "big": big, "runs": runs})
 }
 
+/// C07 native: a message of a *related* wire type (upgrade steps, surplus fields, options that fail) decoded natively
+pub fn quota_native_related_case(idx: usize, reg: &[Box<dyn Ops>], g: &mut crate::gen::G) -> Value {
+    use crate::absty::Abs;
+    let e = &reg[g.rng_range(0, reg.len())];
+    let mut d = crate::corpus::Decl::new();
+    let t = e.decl(&mut d);
+    let nodes = d.nodes.clone();
+    let abs = Abs::new(&nodes);
+    let env = abs.type_env();
+    let decl_ty = abs.ty(&t);
+    g.ndefs = 0;
+    // related by upgrade/breaking steps, or a layout twin (options whose payload type does not fit are skipped after back-tracking)
+    let wt = if g.rng_range(0, 3) == 0 { crate::native::twin(&env, &decl_ty, 3) } else { g.related(&env, &decl_ty, 3) };
+    let v = match g.val(&env, &wt, 4) { Some(v) => v, None => return json!({"idx": idx, "kind": "skip"}) };
+    let args = IDLArgs { args: vec![v] };
+    let bytes = match guard(|| args.to_bytes_with_types(&env, &[wt.clone()])) { Ok(Ok(b)) => b, _ => return json!({"idx": idx, "kind": "skip"}) };
+    let base = e.decode_with(&bytes, None, None);
+    let big = e.decode_with(&bytes, Some(BIG), Some(BIG));
+    let mut runs = vec![];
+    if big.get("ok").is_some() {
+        let (cd, cs) = (big["cd"].as_i64().unwrap(), big["cs"].as_i64().unwrap());
+        for dq in grid(cd) { for sq in grid(cs) { let mut r = e.decode_with(&bytes, Some(dq), Some(sq)); r["d"] = json!(dq); r["s"] = json!(sq); runs.push(r); } }
+    }
+    json!({"idx": idx, "kind": "quota", "api": "native", "rust": e.name(), "env": nodes, "types": [t], "nextra": 0, "blob": bytesj(&bytes), "base": base, "big": big, "runs": runs})
+}
+
 // ------------------------------------------------------------------ C06
 fn hostile(g: &mut crate::gen::G) -> Vec<u8> {
     // headers and values with absurd counts, deep nesting, zero-sized element bombs
@@ -138,12 +164,18 @@ pub fn fuzz_case(idx: usize, c: Option<&Value>, reg: &[Box<dyn Ops>], g: &mut cr
             _ => { let m = crate::msg::rand_msg(g, 0); (m.bytes, "valid") }
         },
     };
+    if std::env::var("CV_DEBUG").is_ok() { eprintln!("case {idx} {origin} {}", bytes.iter().map(|b| format!("{b:02x}")).collect::<String>()); }
     g.ndefs = 0;
     let env = TypeEnv::new();
     let ets: Vec<Type> = match g.rng_range(0, 4) { 0 => vec![], 1 => vec![g.typ(2)], 2 => vec![g.typ(1), g.typ(2)], _ => vec![candid::types::TypeInner::Reserved.into()] };
     let mut fl = Flat::new(&env);
     let tids: Vec<String> = ets.iter().map(|t| fl.ty(t)).collect();
-    let quotas: [(Option<usize>, Option<usize>); 5] = [(None, None), (Some(0), None), (Some(100), Some(1000)), (Some(10_000), Some(0)), (Some(2_000_000), Some(10_000))];
+    // unmetered decoding of a length bomb is unbounded by design (the documentation asks for a quota on untrusted input):
+    // the unmetered entry points are exercised only on inputs that the conformance suite's quota (2*10^7) does not reject
+    let pre = untyped_with(&bytes, &env, &ets, &cfg(Some(20_000_000), None));
+    let pre_any = untyped_with(&bytes, &env, &[], &cfg(Some(20_000_000), None));
+    let bomb = pre.get("quota").is_some() || pre_any.get("quota").is_some();
+    let quotas: [(Option<usize>, Option<usize>); 5] = [(if bomb { Some(20_000_000) } else { None }, None), (Some(0), None), (Some(100), Some(1000)), (Some(10_000), Some(0)), (Some(2_000_000), Some(10_000))];
     let mut runs = vec![];
     for (d, s) in quotas {
         let mut c = cfg(d, s);
@@ -155,21 +187,36 @@ pub fn fuzz_case(idx: usize, c: Option<&Value>, reg: &[Box<dyn Ops>], g: &mut cr
     }
     // no expected types at all
     let base = peak_reset();
-    let any = match guard(|| IDLArgs::from_bytes(&bytes)) { Ok(Ok(_)) => json!({"ok": 1}), Ok(Err(_)) => json!({"err": 1}), Err(s) => json!({"panic": s}) };
+    let any = if bomb { json!({"skip": 1}) } else { match guard(|| IDLArgs::from_bytes(&bytes)) { Ok(Ok(_)) => json!({"ok": 1}), Ok(Err(_)) => json!({"err": 1}), Err(s) => json!({"panic": s}) } };
     let any_peak = peak_since(base);
     // native decoders
     let mut nat = vec![];
     for _ in 0..3 {
         let e = &reg[g.rng_range(0, reg.len())];
         let (d, s) = quotas[g.rng_range(0, quotas.len())];
+        let d = if bomb && d.is_none() { Some(20_000_000) } else { d };
         let mut r = e.decode_with(&bytes, d, s);
         if let Some(o) = r.as_object_mut() { if o.contains_key("ok") { o.insert("ok".into(), json!(1)); } o.remove("msg"); }
         r["rust"] = json!(e.name()); r["d"] = json!(d.map(|x| x as i64).unwrap_or(-1)); r["s"] = json!(s.map(|x| x as i64).unwrap_or(-1));
         nat.push(r);
     }
+    // totality on a small stack: the depth guard must turn deep nesting into an error before the stack runs out
+    let small = {
+        let b2 = bytes.clone();
+        let picks: Vec<usize> = (0..2).map(|_| g.rng_range(0, reg.len())).collect();
+        let h = std::thread::Builder::new().stack_size(192 << 10).spawn(move || {
+            install_panic_hook();
+            let reg = registry();
+            let mut out = vec![];
+            if !bomb { out.push(match guard(|| IDLArgs::from_bytes(&b2)) { Ok(Ok(_)) => json!({"ok": 1}), Ok(Err(_)) => json!({"err": 1}), Err(s) => json!({"panic": s}) }); }
+            for p in picks { let mut r = reg[p].decode_with(&b2, Some(1_000_000), None); if let Some(o) = r.as_object_mut() { if o.contains_key("ok") { o.insert("ok".into(), json!(1)); } o.remove("msg"); o.remove("peak"); } out.push(r); }
+            out
+        }).unwrap();
+        match h.join() { Ok(v) => json!(v), Err(_) => json!([{"panic": "thread"}]) }
+    };
     // the result itself (C02 exactness) is refereed on the unmetered run
-    let exact = crate::msg::decode_all(&bytes, &env, &ets);
-    json!({"idx": idx, "kind": "fuzz", "origin": origin, "len": bytes.len(), "env": fl.nodes, "types": tids, "blob": bytesj(&bytes), "real": exact.clone(), "step": exact, "runs": runs, "any": any, "any_peak": any_peak, "native": nat})
+    let exact = if bomb { json!({"skip": 1}) } else { crate::msg::decode_all(&bytes, &env, &ets) };
+    json!({"idx": idx, "kind": "fuzz", "bomb": bomb, "origin": origin, "len": bytes.len(), "env": fl.nodes, "types": tids, "blob": bytesj(&bytes), "real": exact.clone(), "step": exact, "runs": runs, "any": any, "any_peak": any_peak, "native": nat, "small": small})
 }
 
 pub fn run(o: &Opts) {
@@ -191,7 +238,7 @@ pub fn run(o: &Opts) {
     }
     for i in 0..o.n {
         progress.store(idx + 1, Relaxed);
-        let v = match mode { "fuzz" => fuzz_case(idx, None, &reg, &mut g), _ => if i % 3 == 2 { quota_native_case(idx, &reg, &mut rng) } else { quota_case(idx, &mut g) } };
+        let v = match mode { "fuzz" => fuzz_case(idx, None, &reg, &mut g), _ => match i % 4 { 2 => quota_native_case(idx, &reg, &mut rng), 3 => quota_native_related_case(idx, &reg, &mut g), _ => quota_case(idx, &mut g) } };
         if idx >= o.start { out.emit(&v); }
         idx += 1;
     }
